@@ -1,6 +1,10 @@
 SPECIFICATION Spec
 CONSTANTS
   MaxLen = 3
+  MinFns = 1
+  MaxFns = 1
+  Phased = FALSE
+  NeedResult = FALSE
   MaxDepth = 1
   VNames = {"a", "b"}
   LNames = {"y"}
